@@ -220,7 +220,30 @@ fn spec_for(c: &PsoCase, iters: u32) -> Spec<RealP> {
         problem: Box::new(move || RealP::new(cc.dim, -1.0, 2.0, [FKind::Sphere, FKind::Shifted, FKind::Linear, FKind::Tiny][cc.kind as usize], Instr::new())),
         make: Box::new(move |cond| {
             let c = &c2;
-            if c.assembly == 0 {
+            if c.assembly == 3 {
+                // the stock template with a constraint component that runs a loop of its own in a scope
+                // (the way the ILS template nests its local search)
+                use mahf::lens::ValueOf;
+                let constraints = mahf::Configuration::builder()
+                    .do_(boundary::Saturation::new())
+                    .scope_(|b| b.while_(mahf::conditions::LessThanN::iterations(2), |b| b.do_(utils::Noop::new())))
+                    .build_component();
+                Ok(mahf::Configuration::builder()
+                    .do_(mahf::components::initialization::RandomSpread::new(c.n))
+                    .evaluate()
+                    .update_best_individual()
+                    .do_(pso::pso::<RealP, Global>(
+                        pso::Parameters {
+                            particle_init: ParticleSwarmInit::new(c.v_max)?,
+                            particle_update: ParticleVelocitiesUpdate::new(c.start_w, c.c1, c.c2, c.v_max)?,
+                            constraints,
+                            inertia_weight_update: Some(mahf::components::mapping::Linear::new(c.start_w, c.end_w, ValueOf::<Progress<ValueOf<Iterations>>>::new(), ValueOf::<W>::new())),
+                            state_update: ParticleSwarmUpdate::new(),
+                        },
+                        cond,
+                    ))
+                    .build())
+            } else if c.assembly == 0 {
                 pso::real_pso(pso::RealProblemParameters { num_particles: c.n, start_weight: c.start_w, end_weight: c.end_w, c_one: c.c1, c_two: c.c2, v_max: c.v_max }, cond)
             } else {
                 Ok(mahf::Configuration::builder()
@@ -262,7 +285,7 @@ pub fn cases(thorough: bool) -> Vec<PsoCase> {
                     if !thorough && sw == 1.2 && vmax != width {
                         continue;
                     }
-                    for assembly in 0..3u8 {
+                    for assembly in 0..4u8 {
                         if assembly > 0 && (sw != 0.9 || (!thorough && vmax != width)) {
                             continue;
                         }
@@ -293,7 +316,7 @@ fn run_case(c: &PsoCase, iters: u32) -> CaseOut {
 
 pub fn run(rep: &mut Report) {
     let thorough = rep.tier == Tier::Thorough;
-    rep.alpha("real_pso and harness-assembled swarms (no inertia update / toroidal repair): swarm sizes 1..4, dimension 1..2, v_max in {0.05, 1, 10} x domain width, three weight/coefficient sets, three objective functions");
+    rep.alpha("real_pso and harness-assembled swarms (no inertia update / toroidal repair / a constraint component with a scoped loop of its own): swarm sizes 1..4, dimension 1..2, v_max in {0.05, 1, 10} x domain width, three weight/coefficient sets, three objective functions");
     rep.alpha("environment: default generator stream with at most one replaced word (menu of 8 / 19 words) at every draw position; observer around every velocity update, after every inertia mapping, evaluator, personal-best and global-best update");
     rep.assume("which weight scales the old velocity is decided (a) exactly in cases without random terms (c1 = c2 = 0): v_new = clamp(w_stored * v_old), and (b) otherwise by decoding the random factors from the generator words logged during the step (either assignment of the two factors) and comparing the stored against the configured weight; x_after = x_before + v_after is required bit-exactly");
     let iters = if thorough { 4 } else { 3 };
